@@ -5,6 +5,7 @@
 package uagent
 
 import (
+	"strings"
 	"bytes"
 	"crypto/rand"
 	"crypto/subtle"
@@ -318,6 +319,18 @@ func (a *Agent) Handle(frame []byte) vnet.Reply {
 	a.Log = append(a.Log, Req{Index: idx, Code: code, Body: append([]byte{}, frame...), Fault: fault})
 	if a.OnRequest != nil {
 		a.OnRequest(idx, frame, fault)
+	}
+	if strings.HasPrefix(fault, "cutframe:") {
+		// a reply whose length prefix announces <announced> bytes, of which only <sent> arrive before the connection ends
+		var announced, sent int
+		fmt.Sscanf(fault, "cutframe:%d:%d", &announced, &sent)
+		raw := []byte{byte(announced >> 24), byte(announced >> 16), byte(announced >> 8), byte(announced)}
+		return vnet.Reply{Raw: append(raw, bytes.Repeat([]byte{0xee}, sent)...), Close: true}
+	}
+	if strings.HasPrefix(fault, "bigreply:") {
+		var n int
+		fmt.Sscanf(fault, "bigreply:%d", &n)
+		return vnet.Reply{Raw: vnet.Frame(bytes.Repeat([]byte{0xee}, n))} // a complete reply of n bytes
 	}
 	switch fault {
 	case FaultFailure:
